@@ -118,13 +118,13 @@ class DOMParser:
         context = ParseContext(self, options, False)
 
         for d in itertools.chain([dom_], dom_.iterdescendants()):
-            if d.text is not None and d.text.strip() and d.tag.lower() != "lxmltext":
+            if d.text and d.tag.lower() != "lxmltext":
                 child = lxml.html.Element("lxmltext")
                 child.text = d.text
                 d.insert(0, child)
                 d.text = None
 
-            if d.tail is not None and d.tail.strip():
+            if d.tail:
                 parent = d.getparent()
                 child = lxml.html.Element("lxmltext")
                 child.text = d.tail
